@@ -12,7 +12,7 @@
 
 use crate::error::PathError;
 use error_stack::{Report, Result};
-use std::ffi::OsString;
+use std::ffi::{OsStr, OsString};
 use std::path::PathBuf;
 
 mod abs_path;
@@ -116,11 +116,20 @@ impl TxtppPath for PathBuf {
                 Report::new(PathError::from(self))
                     .attach_printable(format!("path does not have {TXTPP_EXT} extension"))
             })?;
-            p.set_extension(self_ext);
+            // append instead of set_extension: the stem itself may contain dots
+            push_extension(&mut p, self_ext);
         }
 
         Ok(p)
     }
+}
+
+/// Append `.ext` to the file name of `p`, keeping every dot already in the name
+fn push_extension(p: &mut PathBuf, ext: &OsStr) {
+    let mut name = p.file_name().map(OsString::from).unwrap_or_default();
+    name.push(".");
+    name.push(ext);
+    p.set_file_name(name);
 }
 
 #[cfg(windows)]
